@@ -282,7 +282,8 @@ def stackRead (st : Stored) (rq : Req) (d : DType) (willRescale : Bool) : Except
 /-! ### `_get_pixels_by_seg_frame` -/
 
 def readCore (st : Stored) (rq : Req) : Except ErrKind Out := do
-  -- every requested number is described, none is requested twice (`Gen.requestAdmitted`, T8p)
+  -- none is requested twice (first statement of `_get_segment_remap_values`, which every entry point calls with the caller's
+  -- numbers before any query is opened) and every requested number is described (`Gen.requestAdmitted`, T8p)
   let _ ← requestAdmitted (rq.segs.all fun s => st.segNums.contains s) ((uniq rq.segs).length : Int) (rq.segs.length : Int)
   let (mo, willRescale, dc) ← readHead rq.combine rq.relabel rq.rescale (rq.dtype.map DType.code)
       rq.segs.length (listMax rq.segs) (st.type == .fractional) st.mfv
